@@ -357,7 +357,10 @@ def quiet_print(*a, **k):
     return None
 
 
+from .symdict import SymSet
+
 SHIMS = {
+    "set": SymSet,
     "int": IntShim,
     "bytes": BytesShim,
     "bytearray": ByteArrayShim,
